@@ -4,6 +4,7 @@ import (
 	"encoding/base64"
 	"encoding/json"
 	"fmt"
+	"math"
 	"sort"
 	"strings"
 	"sync"
@@ -60,6 +61,21 @@ func genC08E2E(p *sim.Plan, r *sim.Rand) {
 	}
 	if p.Mode == "raw" {
 		p.SetB("double", r.Bool(0.3))
+		if r.Bool(0.4) {
+			// broadcasts aimed at the instant of the return, and a restoration that takes its time: a packet
+			// is logged between the scan of the log and the admission of the restored socket
+			for k := 0; k < r.Range(2, 6); k++ {
+				n++
+				at := disc + gap - 3_000_000 + r.I64n(40_000_000)
+				p.Ops = append(p.Ops, sim.Op{At: at, Actor: 0, Kind: []string{"nsp", "except"}[r.Intn(2)], I: []int64{int64(n), 0, int64(r.Intn(8)), int64(r.Intn(4) / 3)}})
+			}
+			files := []string{"namespace.go", "server_socket.go", "server_conn.go", "adapter_session_aware.go", "packet_queue.go", "store.go"}
+			p.Stall = DrawStall(r, 300_000_000, files...)
+			p.Stall.Focus = files
+			p.Stall.SitePct = 100
+			p.Stall.RatePPM = []int{50000, 200000, 500000}[r.Intn(3)]
+			p.Stall.MaxNs = []int64{2_000_000, 20_000_000, 50_000_000}[r.Intn(3)]
+		}
 	}
 	if p.Mode == "goclient" {
 		// a handler that takes its time: events received before the cut are still waiting for their
@@ -89,7 +105,8 @@ func genC08E2E(p *sim.Plan, r *sim.Rand) {
 
 type c08Emit struct {
 	id     int64
-	at     int64
+	at     int64 // invoked
+	ret    int64 // returned (MaxInt64 while running)
 	T, E   []sio.Room
 	direct bool
 	bin    bool
@@ -148,17 +165,26 @@ func runC08Raw(e *sim.Env) {
 	reg := w.NewSrvReg()
 	rooms := roomsOfSio(p.C("rooms"))
 	var recoveredRooms []string
-	recoveredSeen := false
+	recoveredSeen, recoveredAny := false, false
 	reg.OnNew = func(s *world.SrvSock) {
 		if !s.Socket.Recovered() && len(rooms) > 0 {
 			s.Socket.Join(rooms...)
 		}
+		if s.Socket.Recovered() {
+			recoveredAny = true
+		}
 		if s.Socket.Recovered() && !recoveredSeen {
-			recoveredSeen = true
+			var rs []string
 			for _, r := range s.Socket.Rooms().ToSlice() {
-				recoveredRooms = append(recoveredRooms, string(r))
+				rs = append(rs, string(r))
 			}
-			sort.Strings(recoveredRooms)
+			// (the connection handler can run after the peer has gone again - the second drop of the
+			// double mode, 50 ms after the CONNECT reply: a closed socket is in no room)
+			if s.Socket.Connected() {
+				recoveredSeen = true
+				recoveredRooms = rs
+				sort.Strings(recoveredRooms)
+			}
 		}
 	}
 	srv := w.StartServer(world.ServerOpts{Recovery: true, MaxDisconnect: W, PingInterval: 25 * time.Second, PingTimeout: 20 * time.Minute,
@@ -263,7 +289,7 @@ func runC08Raw(e *sim.Env) {
 			mu.Lock()
 			emits = append(emits, em)
 			mu.Unlock()
-			em.at = e.Now()
+			em.at, em.ret = e.Now(), math.MaxInt64
 			switch op.Kind {
 			case "nsp":
 				srv.Of("/").Emit("ev", args...)
@@ -284,6 +310,9 @@ func runC08Raw(e *sim.Env) {
 				}
 				cur.Emit("ev", args...)
 			}
+			mu.Lock()
+			em.ret = e.Now()
+			mu.Unlock()
 		}
 	})
 
@@ -428,17 +457,25 @@ func runC08Raw(e *sim.Env) {
 			replayed = append(replayed, g.id)
 		}
 	}
-	// events emitted after the reconnection are ordinary traffic, not replay
-	after := map[int64]bool{}
+	// Events emitted after the reconnection are ordinary traffic, not replay. An emission that was under
+	// way at the reconnection reaches a recovered session exactly once (from the log or as a broadcast);
+	// it may reach a fresh session as a broadcast.
+	after, afterOrDuring := map[int64]bool{}, map[int64]bool{}
 	for _, em := range emits {
 		if em.at >= recAt {
 			after[em.id] = true
 		}
+		if em.ret >= recAt {
+			afterOrDuring[em.id] = true
+		}
 	}
-	var replayOnly []int64
+	var replayOnly, oldOnly []int64
 	for _, id := range replayed {
 		if !after[id] {
 			replayOnly = append(replayOnly, id)
+		}
+		if !afterOrDuring[id] {
+			oldOnly = append(oldOnly, id)
 		}
 	}
 	slack := e.StallsOverlapping(discAt, recAt) + int64(50*time.Millisecond)
@@ -467,8 +504,8 @@ func runC08Raw(e *sim.Env) {
 			want = append(want, string(r))
 		}
 		sort.Strings(want)
-		if !recoveredSeen || fmt.Sprint(recoveredRooms) != fmt.Sprint(want) {
-			e.Violate("C08/restored-wrong-state", sig, "recovered socket: Recovered() seen by the connection handler=%v, rooms %v, want %v", recoveredSeen, recoveredRooms, want)
+		if !recoveredAny || (recoveredSeen && fmt.Sprint(recoveredRooms) != fmt.Sprint(want)) {
+			e.Violate("C08/restored-wrong-state", sig, "recovered socket: Recovered() seen by the connection handler=%v, rooms %v, want %v", recoveredAny, recoveredRooms, want)
 		}
 		if len(missed) > 0 {
 			e.NonTrivial()
@@ -478,8 +515,8 @@ func runC08Raw(e *sim.Env) {
 		if !mayRefuse {
 			e.Violate("C08/refused-within-window", sig, "reconnected %v after the disconnect (window %v) with pid and offset %q (packet %v old) and got a fresh session %s", time.Duration(gap), W, lastOffset, time.Duration(offAge), connects[1]["sid"])
 		}
-		if len(replayOnly) > 0 {
-			e.Violate("C08/fresh-session-replayed", sig, "a session not marked recovered received old packets %v", replayOnly)
+		if len(oldOnly) > 0 {
+			e.Violate("C08/fresh-session-replayed", sig, "a session not marked recovered received old packets %v", oldOnly)
 		}
 		if gap >= int64(W) {
 			e.NonTrivial()
